@@ -189,7 +189,9 @@ var xContexts = []xctx{
 	{"array", "return [$0, $0];", ""},
 	{"call-args", "return H.f(1, 0)($0, $0);", ""},
 	{"spread", "return [...$0];", ""},
-	{"object", "return {x: $0, [$0]: 1, ...$0};", ""},
+	{"object", "return {x: $0, y: 1};", ""},
+	{"object-spread", "return {...$0};", ""},
+	{"object-key", "return {[$0]: 1, x: 2};", ""},
 	{"template", "return `${$0}`;", ""},
 	{"new-callee", "return new $0(a);", ""},
 	{"call-callee", "return $0(a);", ""},
